@@ -2310,7 +2310,7 @@ impl<'a> SeqRun<'a> {
                 }
             }
             if diverged {
-                self.rep.add("differential_stopped_after_divergence", 1);
+                self.rep.add("sum_differential_stopped_after_divergence", 1);
             }
             if !sealed.problems.is_empty() {
                 break;
@@ -2884,7 +2884,7 @@ pub fn c12_layers(rep: &mut Report, idx: &mut u64) {
     let varied = [CAP_NO_OPEN, CAP_NO_OPENDIR, CAP_WRITEBACK, CAP_KILLPRIV_V2, CAP_DAX];
     let baseline: u64 = crate::ptworld::CAPABLE_ALL & !(CAP_NO_OPEN | CAP_NO_OPENDIR | CAP_WRITEBACK | CAP_KILLPRIV_V2 | CAP_DAX) | CAP_INIT_EXT;
     let mut cl = Client::new();
-    for layer in 0..4usize {
+    for layer in 0..6usize {
         for sw in 0..32usize {
             for cm in 0..32usize {
                 let mine = rep.mine(*idx);
@@ -2894,13 +2894,13 @@ pub fn c12_layers(rep: &mut Report, idx: &mut u64) {
                 }
                 let (no_open, no_opendir, writeback, killpriv, dax) = (sw & 1 != 0, sw & 2 != 0, sw & 4 != 0, sw & 8 != 0, sw & 16 != 0);
                 let caps = baseline | (0..5).filter(|i| cm & (1 << i) != 0).map(|i| varied[i]).fold(0, |a, b| a | b);
-                let cfg = PtCfg { no_open, no_opendir, writeback, killpriv_v2: killpriv, dax, behind_vfs: layer == 1 || layer == 3, layer_cfg_off: layer == 3, ..PtCfg::base() };
+                let cfg = PtCfg { no_open, no_opendir, writeback, killpriv_v2: killpriv, dax, behind_vfs: layer == 1 || layer >= 3, layer_cfg_off: layer == 3 || layer == 5, late_mount: layer >= 4, ..PtCfg::base() };
                 let n0 = cl.nreq;
                 // the world: exported tree with a 7-byte file `a`, a 9-byte file `d/a` and a set-user-ID file `s`
                 let mut w = PtWorld::new_caps(&cfg, &mut cl, true, if layer == 2 { crate::ptworld::CAPABLE_ALL } else { caps });
                 std::fs::write(w.exp.join("s"), b"suid\n").unwrap();
                 std::fs::set_permissions(w.exp.join("s"), std::fs::Permissions::from_mode(0o4755)).unwrap();
-                let layer_name = ["passthrough", "vfs+passthrough", "overlay", "vfs(switches)+passthrough(defaults)"][layer];
+                let layer_name = ["passthrough", "vfs+passthrough", "overlay", "vfs(switches)+passthrough(defaults)", "vfs+passthrough-mounted-after-init", "vfs(switches)+passthrough(defaults)-mounted-after-init"][layer];
                 if layer == 2 {
                     // an overlay whose upper layer is the export directory (everything is already "copied up")
                     let mk = |dir: &std::path::Path| -> Arc<BoxedLayer> {
